@@ -981,6 +981,8 @@ class Interp:
                 return REnum(name, [self.expr(a, env) for a in args])
             raise Unsupported(f"call to {'::'.join(p)} (line {line})")
         fv = self.expr(f, env)
+        if not isinstance(fv, (Closure, FnVal)):
+            raise Unsupported(f"call of a non-function value at line {line}: {str(f)[:80]}")
         return self.call_value(fv, [self.expr(a, env) for a in args])
 
     def e_mcall(self, n, env):
